@@ -44,6 +44,7 @@ func NewGen(r *rand.Rand) *Gen {
 	g.state["mu"] = g.uval(4)
 	g.state["mulist"] = g.ulist(false)
 	g.state["lq"] = int64(r.Intn(5))
+	g.state["clock"] = int64(r.Intn(5))
 	g.state["kulist"] = g.ulist(true)
 	g.state["ulist"] = g.ulist(false)
 	g.state["slow"] = int64(r.Intn(5))
@@ -265,7 +266,7 @@ func (g *Gen) NextOp(prefer []string) int {
 	if len(prefer) > 0 && g.r.Intn(4) != 0 {
 		name = prefer[g.r.Intn(len(prefer))]
 	} else {
-		all := []string{"n", "s", "obj", "items", "kids:0", "kids:1", "plain", "nums", "grid", "ku", "pu", "mu", "mu", "mulist", "lq", "kulist", "ulist", "slow", "exp", "r", "pick", "teams",
+		all := []string{"n", "s", "obj", "items", "kids:0", "kids:1", "plain", "nums", "grid", "ku", "pu", "mu", "mu", "mulist", "lq", "clock", "kulist", "ulist", "slow", "exp", "r", "pick", "teams",
 			fmt.Sprintf("team:%d", g.r.Intn(NumTeams)), fmt.Sprintf("v:%d", g.r.Intn(NumVCells)),
 			fmt.Sprintf("item:%d", g.r.Intn(NumItems))}
 		name = all[g.r.Intn(len(all))]
@@ -281,6 +282,15 @@ func (g *Gen) OpOn(name string) int {
 	old := g.state[name]
 	var nv interface{}
 	switch {
+	case name == "clock": // the logical clock only moves forward; sometimes across an epoch boundary
+		l := old.(int64)
+		if g.r.Intn(3) == 0 {
+			nv = (l/ClockEpoch+1)*ClockEpoch + int64(g.r.Intn(3))
+		} else if l%ClockEpoch < ClockEpoch-2 {
+			nv = l + 1
+		} else {
+			nv = l
+		}
 	case name == "teams":
 		nv = g.editIDs(old.([]int64), NumTeams)
 	case name == "n" || name == "slow" || name == "exp" || name == "r" || name == "lq" || strings.HasPrefix(name, "team:") || strings.HasPrefix(name, "v:"):
@@ -550,6 +560,21 @@ func (g *Gen) GenVarQuery(tag string, o QueryOpts) (string, map[string]interface
 	return d.text, map[string]interface{}{"tag": tag, "k": float64(k)}, d.cells
 }
 
+// ClockTick generates a small advance of the logical clock inside the current
+// epoch (no deadline passes) and ClockCross one beyond the next boundary.
+func (g *Gen) ClockTick() int {
+	l := g.state["clock"].(int64)
+	if l%ClockEpoch < ClockEpoch-2 {
+		l++
+	}
+	return g.AddOp(Op{Cell: "clock", Val: l})
+}
+
+func (g *Gen) ClockCross() int {
+	l := g.state["clock"].(int64)
+	return g.AddOp(Op{Cell: "clock", Val: (l/ClockEpoch+1)*ClockEpoch + int64(g.r.Intn(3))})
+}
+
 // KeySwitch generates writes that switch the mixed union `mu` from its
 // key-less member to its keyed member (and on to a value change and back).
 func (g *Gen) KeySwitch() []int {
@@ -567,6 +592,7 @@ type QueryOpts struct {
 	Res        bool // selects the resource-creating field
 	Slow       bool // may select the slow field
 	Cost       bool // selects the Expensive field on list elements and on the nullable object
+	Timed      bool // selects the time-driven field (logical clock, InvalidateAt / InvalidateAfter)
 	SlowAlways bool // always selects the slow (context-honouring) field
 	LQ         bool // selects the live-query field (public reactive.Cache; registers a resource, then may fail)
 }
@@ -617,6 +643,19 @@ func (g *Gen) GenQuery(tag string, o QueryOpts) (string, []string) {
 			return fld{"pick { id cost }", append([]string{"pick"}, itemCells()...)}
 		},
 		func() fld { return fld{"plain { x y }", []string{"plain"}} },
+		func() fld { // the same item pointers along two paths, an Expensive object field under one response key with different sub-selections / arguments
+			cs := append([]string{"items", "pick", "kids:0", "kids:1"}, itemCells()...)
+			switch r.Intn(4) {
+			case 0:
+				return fld{"w1: items { id detail { name } } w2: items { id detail { w name } }", cs}
+			case 1:
+				return fld{"w1: items { id v: scaled(by: 2) { w } } w2: items { id v: scaled(by: 3) { w name } }", cs}
+			case 2:
+				return fld{"w1: items { id detail { w } } w2: pick { id detail { name } kids { id detail { name w } } }", cs}
+			default:
+				return fld{"w1: pick { id v: scaled(by: 5) { w } } w2: items { id v: detail { name } kids { id v: scaled(by: 7) { name w } } }", cs}
+			}
+		},
 		func() fld {
 			cs := []string{"teams"}
 			for i := 0; i < NumTeams; i++ {
@@ -659,7 +698,7 @@ func (g *Gen) GenQuery(tag string, o QueryOpts) (string, []string) {
 	for _, pi := range perm[:n] {
 		f := pool[pi]()
 		text := f.text
-		if r.Intn(6) == 0 {
+		if r.Intn(6) == 0 && !strings.Contains(strings.SplitN(text, " ", 2)[0], ":") {
 			text = fmt.Sprintf("al%d: %s", len(parts), text)
 		}
 		parts = append(parts, text)
@@ -669,6 +708,10 @@ func (g *Gen) GenQuery(tag string, o QueryOpts) (string, []string) {
 		parts = append(parts, "ci: items { id cost }", "cp: pick { id cost }", "cm: mu { ... on PA { a same } ... on KB { id b } }")
 		cells = append(cells, "items", "pick", "mu")
 		cells = append(cells, itemCells()...)
+	}
+	if o.Timed {
+		parts = append(parts, "timed")
+		cells = append(cells, "clock")
 	}
 	if o.SlowAlways || (o.Slow && r.Intn(3) == 0) {
 		parts = append(parts, fmt.Sprintf("slow(us: %d)", 50+r.Intn(600)))
